@@ -3,11 +3,12 @@
    entry points (Model/Printer.v); a reader is the list of pieces its reads deliver, [accepted] is
    the short count of the first vectored write; [decode_msg] is the independent strict decoder
    (Spec/MessageSpec.v). *)
-From KV Require Import Lib.Bytes Model.Headers Model.Printer Spec.HeaderStore Spec.ChunkedSpec Spec.MessageSpec Spec.PrinterSpec
-  Proofs.PrinterRound.
+From KV Require Import Lib.Bytes Model.Headers Model.Parser Model.Body Model.Printer Model.Client
+  Spec.HeaderStore Spec.ChunkedSpec Spec.MessageSpec Spec.PrinterSpec Spec.HttpGrammar
+  Proofs.PrinterRound Proofs.ClientRoundBase Proofs.ClientRound.
 
-Definition inputs_ok (code : N) (reason : bytes) (fs : list (bytes * bytes)) (dv : bytes) : Prop :=
-  (100 <= code <= 999)%N /\ no_crlf reason = true /\ wf_user_fields fs = true /\ wf_date_value dv = true.
+(* [inputs_ok code reason fs dv] (Spec/PrinterSpec.v): 100 <= code <= 999, a CR/LF-free reason, printable user fields, a
+   printable date value *)
 
 (* partial writes never change what ends up on the wire *)
 Theorem C08_writer_independent : forall head body accepted,
@@ -79,3 +80,69 @@ Example C08_ex_empty_chunked_bytes :
   out_of (write_response_bytes 200 (bs "OK") (user_headers false [(bs "transfer-encoding", bs "chunked")]) [] [] 0) =
   bs "HTTP/1.1 200 OK" ++ [x0d;x0a] ++ bs "transfer-encoding: chunked" ++ [x0d;x0a;x0d;x0a] ++ bs "0" ++ [x0d;x0a;x0d;x0a].
 Proof. vm_compute. reflexivity. Qed.
+
+
+(* ------------------------------------------------------------------ read back by khttp's own client
+   [client_receive wire] (Model/Client.v) is Response::parse followed by the body reader chosen as in
+   BodyReader::from_response and read to the end.  Under [client_inputs_ok] - the reason consists of bytes the response
+   parser accepts, the field names of token bytes - what the printer writes is read back exactly: status, reason, the
+   header collection and the body.  (The `_segmented` variants in Proofs/ClientRound.v add: for every split of the bytes
+   into a head buffer and stream segments, and every positive read-size sequence.) *)
+Theorem C08_client_bytes : forall code reason dated fs dv body accepted,
+  inputs_ok code reason fs dv -> client_inputs_ok reason fs dv = true ->
+  (N.of_nat (length body) < 2 ^ 64)%N ->
+  exists r framing,
+    client_receive (out_of (write_response_bytes code reason (user_headers dated fs) (date_line dv) body accepted))
+      = Some (code, reason, r, body)
+    /\ r = headers_of (shown_fields dated fs dv ++ framing)
+    /\ stored r = shown_fields dated fs dv ++ filter (fun f => negb (is_clf f)) framing
+    /\ framing_for fs (length body) framing.
+Proof. exact client_reads_response_bytes. Qed.
+Print Assumptions C08_client_bytes.
+
+Theorem C08_client_empty : forall code reason dated fs dv,
+  inputs_ok code reason fs dv -> client_inputs_ok reason fs dv = true ->
+  exists r framing,
+    client_receive (out_of (write_response_empty code reason (user_headers dated fs) (date_line dv)))
+      = Some (code, reason, r, [])
+    /\ r = headers_of (shown_fields dated fs dv ++ framing)
+    /\ stored r = shown_fields dated fs dv ++ filter (fun f => negb (is_clf f)) framing
+    /\ framing_for fs 0 framing.
+Proof. exact client_reads_response_empty. Qed.
+
+Theorem C08_client_reader : forall code reason dated fs dv pieces accepted,
+  inputs_ok code reason fs dv -> client_inputs_ok reason fs dv = true ->
+  (N.of_nat (length (concat pieces)) < 2 ^ 64)%N ->
+  (declared_chunked fs = true \/ declared_length fs = None \/ declared_length fs = Some (N.of_nat (length (concat pieces)))) ->
+  exists r framing,
+    client_receive (out_of (write_response code reason (user_headers dated fs) (date_line dv) pieces accepted))
+      = Some (code, reason, r, concat pieces)
+    /\ r = headers_of (shown_fields dated fs dv ++ framing)
+    /\ stored r = shown_fields dated fs dv ++ filter (fun f => negb (is_clf f)) framing
+    /\ framing_for fs (length (concat pieces)) framing.
+Proof. exact client_reads_response_reader. Qed.
+Print Assumptions C08_client_reader.
+
+(* a declared length shorter than what the reader holds: the client reads exactly the declared prefix *)
+Theorem C08_client_declared_prefix : forall code reason dated fs dv pieces accepted d,
+  inputs_ok code reason fs dv -> client_inputs_ok reason fs dv = true ->
+  declared_chunked fs = false -> declared_length fs = Some d -> (d <= N.of_nat (length (concat pieces)))%N ->
+  client_receive (out_of (write_response code reason (user_headers dated fs) (date_line dv) pieces accepted))
+    = Some (code, reason, headers_of (shown_fields dated fs dv ++ [(bs "content-length", dec_of d)]),
+            firstn (N.to_nat d) (concat pieces)).
+Proof. exact client_reads_declared_prefix. Qed.
+
+(* the side conditions cannot be dropped: a reason phrase with obs-text (RFC 9112 allows it, the printer writes it, the
+   independent decoder reads it) is rejected by khttp's own response parser - an observation about the client, outside
+   the twenty properties; likewise a field name that is not a token *)
+Theorem C08_client_reason_refuted : exists code reason dated fs dv body accepted,
+  inputs_ok code reason fs dv /\
+  parse_response (out_of (write_response_bytes code reason (user_headers dated fs) (date_line dv) body accepted)) = Err EStatus /\
+  client_receive (out_of (write_response_bytes code reason (user_headers dated fs) (date_line dv) body accepted)) = None.
+Proof. exact client_reason_refuted. Qed.
+Theorem C08_client_field_name_refuted : exists code reason dated fs dv body accepted,
+  inputs_ok code reason fs dv /\ client_reason_ok reason = true /\
+  parse_response (out_of (write_response_bytes code reason (user_headers dated fs) (date_line dv) body accepted)) = Err EHeader /\
+  client_receive (out_of (write_response_bytes code reason (user_headers dated fs) (date_line dv) body accepted)) = None.
+Proof. exact client_field_name_refuted. Qed.
+Print Assumptions C08_client_reason_refuted.
